@@ -1,14 +1,319 @@
+(* Proofs/C18_Proofs.v — information partitions and profiles (C18).
+   Identities between formal entropy combinations are decided by computation (hmerge normal form
+   of the difference is empty) and lifted to every real set function h through heval_hmerge. *)
 From Verif Require Import Info.
 From Verif Require Import Measures C05_Algebra C05_Merge C18_Model.
 From Coq Require Import Lra.
 Open Scope R_scope.
 
+(* ------------------------------------------------------------------------------------------ *)
+(* Part 0 — the decision procedure and its soundness *)
+
 Definition hzero (t : list hterm) : bool := match hmerge t with [] => true | _ => false end.
+
+Lemma hzero_heval h t : hzero t = true -> heval h t = 0.
+Proof.
+  intros Hz. rewrite <- heval_hmerge. unfold hzero in Hz.
+  destruct (hmerge t) as [|x r].
+  - apply heval_nil.
+  - discriminate Hz.
+Qed.
+
 Definition hequiv (a b : list hterm) : bool := hzero (a ++ hneg b).
+
+Lemma heval_hneg h t : heval h (hneg t) = - heval h t.
+Proof. unfold hneg. rewrite heval_scale, Q2R_m1. ring. Qed.
+
+Lemma hequiv_heval h a b : hequiv a b = true -> heval h a = heval h b.
+Proof.
+  intros He. apply (hzero_heval h) in He.
+  rewrite heval_app, heval_hneg in He. lra.
+Qed.
+
+(* the variant that ignores the h [] terms *)
 Definition drop_empty (t : list hterm) : list hterm :=
   filter (fun x => negb (Nat.eqb (length (snd x)) 0)) t.
+
+Lemma heval_drop_empty h t : h [] = 0 -> heval h (drop_empty t) = heval h t.
+Proof.
+  intros H0. induction t as [|[c S] t IH].
+  - reflexivity.
+  - unfold drop_empty in *. cbn [filter snd].
+    destruct S as [|s S]; cbn [length Nat.eqb negb].
+    + rewrite heval_cons, IH, H0. ring.
+    + rewrite !heval_cons, IH. reflexivity.
+Qed.
+
 Definition hequiv0 (a b : list hterm) : bool := hzero (drop_empty (a ++ hneg b)).
 
-Eval vm_compute in partition_atoms 2.
-Eval vm_compute in map (fun A => (A, atom_of 2 A, cmi_terms 2 (map (fun a => [a]) A) (ndiff (range 2) A))) (subsets 2).
-Eval vm_compute in partition_atoms 3.
+Lemma hequiv0_heval h a b : h [] = 0 -> hequiv0 a b = true -> heval h a = heval h b.
+Proof.
+  intros H0 He. apply (hzero_heval h) in He.
+  rewrite (heval_drop_empty h _ H0), heval_app, heval_hneg in He. lra.
+Qed.
+
+Lemma Q2R_one : Q2R 1%Q = 1.
+Proof. apply RMicromega.Q2R_1. Qed.
+
+Lemma heval_concat h (l : list (list hterm)) : heval h (concat l) = rsum (map (heval h) l).
+Proof.
+  induction l as [|t l IH].
+  - reflexivity.
+  - cbn [concat map rsum]. rewrite heval_app, IH. reflexivity.
+Qed.
+
+Lemma heval_joint h (S : list nat) : heval h [(1%Q, S); ((-(1))%Q, [])] = h S - h [].
+Proof. rewrite !heval_cons, heval_nil, Q2R_one, Q2R_m1. ring. Qed.
+
+(* ------------------------------------------------------------------------------------------ *)
+(* Part 1 — the atoms sum to the joint value *)
+
+(* notations, not definitions: the lifted statements must be syntactically the checked ones *)
+Local Notation atoms_total n := (concat (map snd (partition_atoms n))).
+
+Lemma atoms_sum_joint_check_2 : hequiv (atoms_total 2) [(1%Q, range 2); ((-(1))%Q, [])] = true.
+Proof. vm_compute. reflexivity. Qed.
+Lemma atoms_sum_joint_check_3 : hequiv (atoms_total 3) [(1%Q, range 3); ((-(1))%Q, [])] = true.
+Proof. vm_compute. reflexivity. Qed.
+Lemma atoms_sum_joint_check_4 : hequiv (atoms_total 4) [(1%Q, range 4); ((-(1))%Q, [])] = true.
+Proof. vm_compute. reflexivity. Qed.
+
+Theorem atoms_sum_joint_2 h : heval h (concat (map snd (partition_atoms 2))) = h (range 2) - h [].
+Proof. rewrite <- heval_joint. apply hequiv_heval, atoms_sum_joint_check_2. Qed.
+Theorem atoms_sum_joint_3 h : heval h (concat (map snd (partition_atoms 3))) = h (range 3) - h [].
+Proof. rewrite <- heval_joint. apply hequiv_heval, atoms_sum_joint_check_3. Qed.
+Theorem atoms_sum_joint_4 h : heval h (concat (map snd (partition_atoms 4))) = h (range 4) - h [].
+Proof. rewrite <- heval_joint. apply hequiv_heval, atoms_sum_joint_check_4. Qed.
+
+(* ------------------------------------------------------------------------------------------ *)
+(* Part 2 — each atom is the conditional co-information of its variables given all the others *)
+
+Local Notation nonempty_subsets n := (filter (fun A => negb (Nat.eqb (length A) 0)) (subsets n)).
+
+Local Notation atom_cmi n A := (cmi_terms n (map (fun a => [a]) A) (ndiff (range n) A)).
+
+Lemma atom_cmi_check_2 :
+  forallb (fun A => hequiv (atom_of 2 A) (atom_cmi 2 A)) (nonempty_subsets 2) = true.
+Proof. vm_compute. reflexivity. Qed.
+Lemma atom_cmi_check_3 :
+  forallb (fun A => hequiv (atom_of 3 A) (atom_cmi 3 A)) (nonempty_subsets 3) = true.
+Proof. vm_compute. reflexivity. Qed.
+Lemma atom_cmi_check_4 :
+  forallb (fun A => hequiv (atom_of 4 A) (atom_cmi 4 A)) (nonempty_subsets 4) = true.
+Proof. vm_compute. reflexivity. Qed.
+
+Lemma atom_cmi_lift n h :
+  forallb (fun A => hequiv (atom_of n A) (atom_cmi n A)) (nonempty_subsets n) = true ->
+  forall A, In A (nonempty_subsets n) -> heval h (atom_of n A) = heval h (atom_cmi n A).
+Proof.
+  intros Hall A HA. rewrite forallb_forall in Hall.
+  apply hequiv_heval, Hall, HA.
+Qed.
+
+Theorem atom_is_conditional_coinformation_2 h A :
+  In A (filter (fun A => negb (Nat.eqb (length A) 0)) (subsets 2)) ->
+  heval h (atom_of 2 A) = heval h (cmi_terms 2 (map (fun a => [a]) A) (ndiff (range 2) A)).
+Proof. apply (atom_cmi_lift 2 h atom_cmi_check_2). Qed.
+Theorem atom_is_conditional_coinformation_3 h A :
+  In A (filter (fun A => negb (Nat.eqb (length A) 0)) (subsets 3)) ->
+  heval h (atom_of 3 A) = heval h (cmi_terms 3 (map (fun a => [a]) A) (ndiff (range 3) A)).
+Proof. apply (atom_cmi_lift 3 h atom_cmi_check_3). Qed.
+(* beyond the requested range *)
+Theorem atom_is_conditional_coinformation_4 h A :
+  In A (filter (fun A => negb (Nat.eqb (length A) 0)) (subsets 4)) ->
+  heval h (atom_of 4 A) = heval h (cmi_terms 4 (map (fun a => [a]) A) (ndiff (range 4) A)).
+Proof. apply (atom_cmi_lift 4 h atom_cmi_check_4). Qed.
+
+(* ------------------------------------------------------------------------------------------ *)
+(* Part 3 — cover sums recover every (conditional) co-information *)
+
+Definition ndisjoint (a b : list nat) : bool := forallb (fun x => negb (nat_mem x b)) a.
+
+(* one or two non-empty groups (arbitrary, possibly overlapping or equal, subsets of range n) *)
+Definition group_lists (n : nat) : list (list (list nat)) :=
+  let ne := nonempty_subsets n in
+  map (fun g => [g]) ne ++ flat_map (fun g1 => map (fun g2 => [g1; g2]) ne) ne.
+
+(* ... and every conditioning set disjoint from all the groups *)
+Definition queries (n : nat) : list (list (list nat) * list nat) :=
+  flat_map (fun gs => map (fun cr => (gs, cr))
+                          (filter (fun cr => forallb (fun g => ndisjoint g cr) gs) (subsets n)))
+           (group_lists n).
+
+Lemma cover_check_2 :
+  forallb (fun q => hequiv0 (cover_terms 2 (fst q) (snd q)) (cmi_terms 2 (fst q) (snd q))) (queries 2) = true.
+Proof. vm_compute. reflexivity. Qed.
+Lemma cover_check_3 :
+  forallb (fun q => hequiv0 (cover_terms 3 (fst q) (snd q)) (cmi_terms 3 (fst q) (snd q))) (queries 3) = true.
+Proof. vm_compute. reflexivity. Qed.
+
+Lemma cover_check_4 :
+  forallb (fun q => hequiv0 (cover_terms 4 (fst q) (snd q)) (cmi_terms 4 (fst q) (snd q))) (queries 4) = true.
+Proof. vm_compute. reflexivity. Qed.
+
+Lemma cover_lift n h :
+  forallb (fun q => hequiv0 (cover_terms n (fst q) (snd q)) (cmi_terms n (fst q) (snd q))) (queries n) = true ->
+  h [] = 0 -> forall gs cr, In (gs, cr) (queries n) ->
+  heval h (cover_terms n gs cr) = heval h (cmi_terms n gs cr).
+Proof.
+  intros Hall H0 gs cr Hq. rewrite forallb_forall in Hall.
+  apply (hequiv0_heval h _ _ H0). apply (Hall (gs, cr) Hq).
+Qed.
+
+Theorem cover_sum_recovers_2 h gs cr :
+  h [] = 0 -> In (gs, cr) (queries 2) -> heval h (cover_terms 2 gs cr) = heval h (cmi_terms 2 gs cr).
+Proof. intros H0 Hq. apply (cover_lift 2 h cover_check_2 H0 gs cr Hq). Qed.
+Theorem cover_sum_recovers_3 h gs cr :
+  h [] = 0 -> In (gs, cr) (queries 3) -> heval h (cover_terms 3 gs cr) = heval h (cmi_terms 3 gs cr).
+Proof. intros H0 Hq. apply (cover_lift 3 h cover_check_3 H0 gs cr Hq). Qed.
+
+(* beyond the requested range *)
+Theorem cover_sum_recovers_4 h gs cr :
+  h [] = 0 -> In (gs, cr) (queries 4) -> heval h (cover_terms 4 gs cr) = heval h (cmi_terms 4 gs cr).
+Proof. intros H0 Hq. apply (cover_lift 4 h cover_check_4 H0 gs cr Hq). Qed.
+
+(* non-vacuity of the reference side: co-information is defined (Some) on every query, so
+   cmi_terms is never the fallback [] *)
+Definition coinfo_defined (n : nat) (q : list (list nat) * list nat) : bool :=
+  match coinformation n (fst q) (snd q) with Some _ => true | None => false end.
+Example queries_defined_2 : forallb (coinfo_defined 2) (queries 2) = true.
+Proof. vm_compute. reflexivity. Qed.
+Example queries_defined_3 : forallb (coinfo_defined 3) (queries 3) = true.
+Proof. vm_compute. reflexivity. Qed.
+Example queries_sizes : (length (queries 2), length (queries 3), length (queries 4)) = (16%nat, 98%nat, 544%nat).
+Proof. vm_compute. reflexivity. Qed.
+
+(* ------------------------------------------------------------------------------------------ *)
+(* Part 4 — complexity profile *)
+
+Lemma heval_single h (S : list nat) : heval h [(1%Q, S)] = h S.
+Proof. rewrite heval_cons, heval_nil, Q2R_one. ring. Qed.
+
+Lemma heval_sum_marginals h n : heval h (sum_marginals n) = rsum (map (fun i => h [i]) (range n)).
+Proof.
+  unfold heval, sum_marginals. rewrite map_map. f_equal. apply map_ext.
+  intros i. cbn [fst snd]. rewrite Q2R_one. ring.
+Qed.
+
+Local Notation profile_all n := (concat (map (profile_terms n) (seq 1 n))).
+
+Lemma heval_profile_all h n :
+  heval h (profile_all n) = rsum (map (fun k => heval h (profile_terms n k)) (seq 1 n)).
+Proof. rewrite heval_concat, map_map. reflexivity. Qed.
+
+Lemma profile_scale1_check_2 : hequiv0 (profile_terms 2 1) [(1%Q, range 2)] = true.
+Proof. vm_compute. reflexivity. Qed.
+Lemma profile_scale1_check_3 : hequiv0 (profile_terms 3 1) [(1%Q, range 3)] = true.
+Proof. vm_compute. reflexivity. Qed.
+Lemma profile_scale1_check_4 : hequiv0 (profile_terms 4 1) [(1%Q, range 4)] = true.
+Proof. vm_compute. reflexivity. Qed.
+
+Theorem profile_scale1_2 h : h [] = 0 -> heval h (profile_terms 2 1) = h (range 2).
+Proof. intros H0. rewrite <- heval_single. apply (hequiv0_heval h _ _ H0), profile_scale1_check_2. Qed.
+Theorem profile_scale1_3 h : h [] = 0 -> heval h (profile_terms 3 1) = h (range 3).
+Proof. intros H0. rewrite <- heval_single. apply (hequiv0_heval h _ _ H0), profile_scale1_check_3. Qed.
+Theorem profile_scale1_4 h : h [] = 0 -> heval h (profile_terms 4 1) = h (range 4).
+Proof. intros H0. rewrite <- heval_single. apply (hequiv0_heval h _ _ H0), profile_scale1_check_4. Qed.
+
+Lemma profile_total_check_2 : hequiv0 (profile_all 2) (sum_marginals 2) = true.
+Proof. vm_compute. reflexivity. Qed.
+Lemma profile_total_check_3 : hequiv0 (profile_all 3) (sum_marginals 3) = true.
+Proof. vm_compute. reflexivity. Qed.
+Lemma profile_total_check_4 : hequiv0 (profile_all 4) (sum_marginals 4) = true.
+Proof. vm_compute. reflexivity. Qed.
+
+Theorem profile_total_2 h : h [] = 0 ->
+  rsum (map (fun k => heval h (profile_terms 2 k)) (seq 1 2)) = rsum (map (fun i => h [i]) (range 2)).
+Proof.
+  intros H0. rewrite <- heval_profile_all, <- heval_sum_marginals.
+  apply (hequiv0_heval h _ _ H0), profile_total_check_2.
+Qed.
+Theorem profile_total_3 h : h [] = 0 ->
+  rsum (map (fun k => heval h (profile_terms 3 k)) (seq 1 3)) = rsum (map (fun i => h [i]) (range 3)).
+Proof.
+  intros H0. rewrite <- heval_profile_all, <- heval_sum_marginals.
+  apply (hequiv0_heval h _ _ H0), profile_total_check_3.
+Qed.
+Theorem profile_total_4 h : h [] = 0 ->
+  rsum (map (fun k => heval h (profile_terms 4 k)) (seq 1 4)) = rsum (map (fun i => h [i]) (range 4)).
+Proof.
+  intros H0. rewrite <- heval_profile_all, <- heval_sum_marginals.
+  apply (hequiv0_heval h _ _ H0), profile_total_check_4.
+Qed.
+
+(* ------------------------------------------------------------------------------------------ *)
+(* Part 5 — entropy-triangle coordinates sum to one *)
+
+Theorem triangle1_sum d : rden (log_alphabets d) <> 0 ->
+  rden (triangle1 d 0) + rden (triangle1 d 1) + rden (triangle1 d 2) = 1.
+Proof.
+  intros HU. unfold triangle1. cbn [rden].
+  set (U := rden (log_alphabets d)) in *.
+  set (P := lincomb (hdata d (sum_marginals (d_nvars d)))).
+  set (V := lincomb (hdata d (opt_terms (residual_entropy (d_nvars d) (singles (d_nvars d)) [])))).
+  field. exact HU.
+Qed.
+
+Theorem triangle2_sum d :
+  let n := d_nvars d in
+  let R := RLin (hdata d (opt_terms (residual_entropy n (singles n) []))) in
+  let B := RLin (hdata d (opt_terms (dual_total_correlation n (singles n) []))) in
+  let T := RLin (hdata d (opt_terms (total_correlation n (singles n) []))) in
+  rden R + rden B + rden T <> 0 ->
+  rden (triangle2 d 0) + rden (triangle2 d 1) + rden (triangle2 d 2) = 1.
+Proof.
+  intros n R B T Hs. unfold triangle2. fold n. fold R B T. cbn [rden].
+  cbn [rden] in Hs. unfold R, B, T in *. cbn [rden] in *.
+  set (r := lincomb (hdata d (opt_terms (residual_entropy n (singles n) [])))) in *.
+  set (b := lincomb (hdata d (opt_terms (dual_total_correlation n (singles n) [])))) in *.
+  set (t := lincomb (hdata d (opt_terms (total_correlation n (singles n) [])))) in *.
+  field. lra.
+Qed.
+
+(* ------------------------------------------------------------------------------------------ *)
+(* Part 6 — non-vacuity *)
+
+Example partition_atoms_2_value :
+  partition_atoms 2 =
+  [([0; 1]%nat, [((-(1))%Q, []); (1%Q, [1%nat]); (1%Q, [0%nat]); ((-(1))%Q, [0; 1]%nat)]);
+   ([1%nat], [((-(1))%Q, [0%nat]); (1%Q, [0; 1]%nat)]);
+   ([0%nat], [((-(1))%Q, [1%nat]); (1%Q, [0; 1]%nat)])].
+Proof. vm_compute. reflexivity. Qed.
+
+Example partition_atoms_2_three : length (partition_atoms 2) = 3%nat.
+Proof. vm_compute. reflexivity. Qed.
+
+Example partition_atoms_sizes :
+  (length (partition_atoms 3), length (partition_atoms 4)) = (7%nat, 15%nat).
+Proof. vm_compute. reflexivity. Qed.
+
+(* the shared atom of two variables is the mutual information H(0) + H(1) - H(01) - H() *)
+Example atom_01_is_mutual_information :
+  hequiv (atom_of 2 [0; 1]%nat)
+         [(1%Q, [0%nat]); (1%Q, [1%nat]); ((-(1))%Q, [0; 1]%nat); ((-(1))%Q, [])] = true.
+Proof. vm_compute. reflexivity. Qed.
+
+(* the decision procedure does reject wrong identities *)
+Example hequiv_rejects :
+  hequiv (atom_of 2 [0; 1]%nat) [(1%Q, [0%nat]); (1%Q, [1%nat]); ((-(1))%Q, [0; 1]%nat)] = false
+  /\ hequiv0 (atom_of 2 [0%nat]) (atom_of 2 [1%nat]) = false.
+Proof. vm_compute. split; reflexivity. Qed.
+
+(* XOR-like reading: for any h with h [] = 0 the shared atom of three variables is the
+   co-information, which is negative (-1) when all singles have h = 1, pairs 2 and the triple 2 *)
+Example atom_012_xor h :
+  h [] = 0 -> h [0%nat] = 1 -> h [1%nat] = 1 -> h [2%nat] = 1 ->
+  h [0; 1]%nat = 2 -> h [0; 2]%nat = 2 -> h [1; 2]%nat = 2 -> h [0; 1; 2]%nat = 2 ->
+  heval h (atom_of 3 [0; 1; 2]%nat) = -1.
+Proof.
+  intros H0 H1 H2 H3 H12 H13 H23 H123.
+  assert (He : hequiv (atom_of 3 [0; 1; 2]%nat)
+            [(1%Q, [0%nat]); (1%Q, [1%nat]); (1%Q, [2%nat]);
+             ((-(1))%Q, [0; 1]%nat); ((-(1))%Q, [0; 2]%nat); ((-(1))%Q, [1; 2]%nat);
+             (1%Q, [0; 1; 2]%nat); ((-(1))%Q, [])] = true) by (vm_compute; reflexivity).
+  rewrite (hequiv_heval h _ _ He). rewrite !heval_cons, heval_nil, Q2R_one, Q2R_m1.
+  rewrite H0, H1, H2, H3, H12, H13, H23, H123. ring.
+Qed.
+
+Print Assumptions atoms_sum_joint_3.
+Print Assumptions cover_sum_recovers_3.
